@@ -100,3 +100,172 @@ def _minus_last(s):
     """the request log before the first request of this call (the log at loop entry is that log plus the first URL)"""
     r = s.requests
     return z3.Extract(r, 0, z3.Length(r) - 1)
+
+
+# ============================================================================ count_sessions / get_sessions_by_time (the wrappers)
+from pyvc.weblib import SRV_TOTAL, NUMSTR      # noqa: E402
+
+HTTPD = z3.Function("http_date_of", z3.IntSort(), S)      # utils.http_date(dt): an unspecified function of the datetime object (strftime / pytz: monitored)
+
+REG.contract(
+    "acnportal.acndata.utils.http_date", params=dict(dt=Ref("datetime")), ret=Str, modifies=[],
+    assumed="formats an aware datetime as an RFC-1123 string (astimezone / strftime, outside the verifier's reach: monitored); a function of the datetime object",
+    ensures=[C("function_of_the_datetime", lambda old, new, ret: ret == HTTPD(old.dt.ref))])
+
+
+def count_url(base, site, cond):
+    """base + 'sessions/' + site + '?' + [where=..&] + 'limit=1'"""
+    w = z3.If(cond.isnone, z3.StringVal(""), z3.Concat(z3.StringVal("where="), cond.val, z3.StringVal("&")))
+    return z3.Concat(base, z3.StringVal("sessions/"), site, z3.StringVal("?"), w, z3.StringVal("limit=1"))
+
+
+REG.contract(
+    DC + "count_sessions", params=dict(self=Ref("DataClient"), site=Str, cond=Opt(Str)), ret=Str,
+    raises=[RaiseSpec("ValueError", lambda s: Not(valid_site(s.site)), iff=True, unchanged=True,
+                      post=lambda old, new: [("C20.invalid_site_rejected_before_any_request", new.requests == old.requests)])],
+    modifies=["requests"],
+    ensures=[C("C20.count_sessions", lambda old, new, ret: [
+        ("C20.one_head_request_carrying_the_site_and_filter", new.requests == z3.Concat(old.requests, z3.Unit(count_url(old.self.url, old.site, old.cond)))),
+        ("C20.returns_the_servers_total_count_header", ret == SRV_TOTAL(count_url(old.self.url, old.site, old.cond)))])],
+    extra=dict(ghost_entry=lambda ex, st, pre: (st.ghost.update(requests=z3.Const("requests0", StrSeq)) or {})),
+)
+
+
+def time_condition(s):
+    """'connectionTime >= "<start>"' and 'connectionTime <= "<end>"' and 'kWhDelivered > <min_energy>', each present iff its argument is given, in this
+    order, joined by ' and '"""
+    parts = [(Not(s.start.ref == 0), z3.Concat(z3.StringVal('connectionTime >= "'), HTTPD(s.start.ref), z3.StringVal('"'))),
+             (Not(s.end.ref == 0), z3.Concat(z3.StringVal('connectionTime <= "'), HTTPD(s.end.ref), z3.StringVal('"'))),
+             (Not(s.min_energy.isnone), z3.Concat(z3.StringVal("kWhDelivered > "), NUMSTR(s.min_energy.val)))]
+    out = z3.StringVal("")
+    some = z3.BoolVal(False)
+    for present, text in parts:
+        out = z3.If(present, z3.If(some, z3.Concat(out, z3.StringVal(" and "), text), text), out)
+        some = z3.Or(some, present)
+    return out
+
+
+class _AsOpt:
+    """an always-present optional string (what the wrapper hands to the cond parameter)"""
+    def __init__(self, v):
+        self.isnone, self.val = z3.BoolVal(False), v
+
+
+class _Args:
+    pass
+
+
+def _by_time_post(old, new, ret):
+    cond = time_condition(old)
+    a = _Args()
+    a.self, a.site, a.cond, a.project, a.sort, a.timeseries = old.self, old.site, _AsOpt(cond), _AsOpt(z3.StringVal("")), _AsOpt(z3.StringVal("connectionTime")), old.timeseries
+    a.project.isnone = z3.BoolVal(True)
+    return [
+        ("C20.count_is_the_servers_answer_to_one_head_request_with_the_time_window_filter",
+         Implies(old.count, And(new.requests == z3.Concat(old.requests, z3.Unit(count_url(old.self.url, old.site, _AsOpt(cond)))), new.yielded == old.yielded))),
+        ("C20.sessions_of_the_time_window_sorted_by_connection_time_every_one_once_in_server_order",
+         Implies(Not(old.count), And(new.yielded == z3.Concat(old.yielded, CHAIN(old.self.url, first_url(a))),
+                                     new.requests == z3.Concat(old.requests, URLS(old.self.url, first_url(a)))))),
+    ]
+
+
+REG.contract(
+    DC + "get_sessions_by_time",
+    params=dict(self=Ref("DataClient"), site=Str, start=Ref("datetime", nullable=True), end=Ref("datetime", nullable=True), min_energy=Opt(Real), timeseries=Bool, count=Bool),
+    raises=[RaiseSpec("ValueError", lambda s: Not(valid_site(s.site)), iff=True, unchanged=True,
+                      post=lambda old, new: [("C20.invalid_site_rejected_before_any_request", And(new.requests == old.requests, new.yielded == old.yielded))])],
+    modifies=["yielded", "requests"],
+    ensures=[C("C20.get_sessions_by_time", _by_time_post)],
+    extra=dict(ghost_entry=lambda ex, st, pre: (st.ghost.update(yielded=z3.Const("yielded0", RefSeq), requests=z3.Const("requests0", StrSeq)) or {})),
+)
+REG.assume("A-LIB", "C20: get_sessions_by_time returns the generator of get_sessions(...) unconsumed; the contract describes what consuming it yields (the call is "
+                    "modelled as if the generator were run at once); str(number) is an unspecified function of the number")
+
+
+# ---------------------------------------------------------------------------- native replay of counter-models (real DataClient against a stub server)
+def _native_replay(method):
+    def run(data, oname):
+        """run the real method on the model's arguments against a two-page stub server; compare the first request and the yielded sessions with
+        what the property says (an independent transcription of the statement, not the contract clause)"""
+        import importlib
+        from datetime import datetime, timezone
+        from unittest import mock
+        dc = importlib.import_module("acnportal.acndata.data_client")
+        utils = importlib.import_module("acnportal.acndata.utils")
+
+        def unq(x):
+            return x[1:-1] if isinstance(x, str) and len(x) >= 2 and x[0] == '"' and x[-1] == '"' else x
+        base = "https://stub/api/"
+        calls = []
+
+        class Resp:
+            def __init__(self, url):
+                self.url = url
+                self.headers = {"x-total-count": "42"}
+
+            def json(self):
+                if "page=2" in self.url:
+                    return {"_items": [{"_id": "c"}], "_links": {}}
+                return {"_items": [{"_id": "a"}, {"_id": "b"}], "_links": {"next": {"href": "sessions/x?page=2"}}}
+
+        def fake(url, **kw):
+            calls.append(url)
+            return Resp(url)
+        client = dc.DataClient("token", url=base)
+        site = unq(data.get("site"))
+        kwargs, expect = {}, None
+        if method == "get_sessions_by_time":
+            def when(v, hour):
+                return None if v is None else datetime(2019, 3, 1, hour, tzinfo=timezone.utc)
+            start, end = when(data.get("start"), 8), when(data.get("end"), 20)
+            me = data.get("min_energy")
+            kwargs = dict(start=start, end=end, min_energy=me, timeseries=bool(data.get("timeseries")), count=bool(data.get("count")))
+            conds = []
+            if start is not None:
+                conds.append('connectionTime >= "{0}"'.format(utils.http_date(start)))
+            if end is not None:
+                conds.append('connectionTime <= "{0}"'.format(utils.http_date(end)))
+            if me is not None:
+                conds.append("kWhDelivered > {0}".format(me))
+            cond = " and ".join(conds)
+            if kwargs["count"]:
+                expect = base + "sessions/" + site + "?where=" + cond + "&limit=1"
+            else:
+                expect = base + "sessions/" + site + ("/ts/" if kwargs["timeseries"] else "") + "?where=" + cond + "&sort=connectionTime&max_results=" + ("1" if kwargs["timeseries"] else "100")
+        elif method == "count_sessions":
+            cond = unq(data.get("cond"))
+            kwargs = dict(cond=cond)
+            expect = base + "sessions/" + site + "?" + ("where=" + cond + "&" if cond is not None else "") + "limit=1"
+        else:
+            cond, project, sort = unq(data.get("cond")), unq(data.get("project")), unq(data.get("sort"))
+            ts = bool(data.get("timeseries"))
+            kwargs = dict(cond=cond, project=project, sort=sort, timeseries=ts)
+            q = "".join(f"{k}={v}&" for k, v in (("where", cond), ("project", project), ("sort", sort)) if v is not None)
+            expect = base + "sessions/" + site + ("/ts/" if ts else "") + "?" + q + "max_results=" + ("1" if ts else "100")
+        out = dict(native_call=f"DataClient.{method}({site!r}, **{kwargs!r})", expected_first_request=expect)
+        try:
+            with mock.patch.object(dc.requests, "get", fake), mock.patch.object(dc.requests, "head", fake), mock.patch.object(dc, "parse_dates", lambda d: None):
+                r = getattr(client, method)(site, **kwargs)
+                got = list(r) if hasattr(r, "__next__") else r
+        except ValueError as e:
+            valid = site in ("caltech", "jpl", "office001")
+            out.update(native_exception=f"ValueError: {e}", reproduced=bool(valid or calls), expected="ValueError only for an invalid site, before any request")
+            return out
+        ids = [d["_id"] for d in got] if isinstance(got, list) else got
+        out.update(native_requests=calls, native_result=ids)
+        bad = []
+        if site not in ("caltech", "jpl", "office001"):
+            bad.append("an invalid site was accepted")
+        if not calls or calls[0] != expect:
+            bad.append("the first request differs from the one the arguments call for")
+        if isinstance(got, list) and ids != ["a", "b", "c"]:
+            bad.append("the sessions yielded are not every session of the result set once, in server order")
+        if isinstance(got, list) and calls[1:] != [base + "sessions/x?page=2"]:
+            bad.append("the next links were not followed exactly once each")
+        out.update(reproduced=bool(bad), violated=bad)
+        return out
+    return run
+
+
+for _m in ("get_sessions", "count_sessions", "get_sessions_by_time"):
+    REG.get(DC + _m).extra["native_replay"] = _native_replay(_m)
